@@ -423,7 +423,7 @@ def run(ctx):
     # model is compared on a sample of the generated geometries (every corpus
     # scenario, every `stride`-th geometry, first 4-5 rays); the fresh-initialisation
     # oracle above has already judged ALL rays
-    stride = 2 if ctx.tier == "quick" else 3
+    stride = 2 if ctx.tier == "quick" else 1
     nray = 4 if ctx.tier == "quick" else 5
     keep, seen_g = [], []
     for job in model_jobs:
